@@ -134,10 +134,13 @@ type Exec struct {
 	assumptions map[string]bool
 	libUsed    map[string]bool
 	heapSort   map[string]Sort
+	untouched  map[*State]bool // branch states whose path condition is still the branch condition (no early exit inside)
 	code       []*codeCtx
 	nInline    int
 	exitHook   func(outs []Val, suffix string)
 	exitsChecked bool
+	frameVars    map[string]Val
+	frameTargets [][2]any
 	lastFrame  *frame
 	sizes      []*T
 	strKeys    []*T
@@ -159,7 +162,7 @@ func newExec(prog *Program, pkg *packages.Package, fn *types.Func, fc *FuncContr
 		boxed: map[types.Object]bool{}, closures: map[string]*closure{},
 		builders: map[string]bool{}, dynType: map[string]types.Type{},
 		strLits: map[string]*T{}, unmodelled: map[string]bool{}, stores: map[string]bool{},
-		assumptions: map[string]bool{}, libUsed: map[string]bool{}, heapSort: map[string]Sort{},
+		assumptions: map[string]bool{}, libUsed: map[string]bool{}, heapSort: map[string]Sort{}, untouched: map[*State]bool{},
 	}
 	ex.st = &State{env: map[string]*T{}, pc: True}
 	for _, n := range []string{"errIs", "dyntype", "ifaceI", "ifaceS", "ifaceO", "memB", "memI", "memS", "memO", "wfS", "bytesEq"} {
@@ -665,6 +668,9 @@ func bytesEq(a, b *T) *T {
 	if a == b {
 		return True
 	}
+	if a.str > b.str { // canonical argument order (the relation is symmetric)
+		a, b = b, a
+	}
 	return App("bytesEq", SBool, a, b)
 }
 
@@ -774,9 +780,11 @@ func (ex *Exec) branch(base *State, c *T, f func()) *State {
 		ns.pc = g
 	}
 	ex.st = ns
+	initPC := ns.pc
 	f()
 	res := ex.st
 	ex.st = saved
+	ex.untouched[res] = res.pc == initPC && !res.dead
 	return res
 }
 
